@@ -3,7 +3,7 @@
 use crate::common::*;
 use cteepbd::types::*;
 
-pub fn units(tier: &str, _seed: u64) -> Vec<String> {
+pub fn units(tier: &str, seed: u64) -> Vec<String> {
     let shapes: &[&str] = &[
         "U:CAL:ELECTRICIDAD;U:ACS:ELECTRICIDAD;P:EL_INSITU",
         "U:CAL:ELECTRICIDAD;P:EL_INSITU;U:ACS:GASNATURAL",
@@ -22,6 +22,9 @@ pub fn units(tier: &str, _seed: u64) -> Vec<String> {
         v.push(unit(&[("shape", "U:CAL:ELECTRICIDAD;U:ACS:ELECTRICIDAD;P:EL_INSITU;P:EL_COGEN;U:COGEN:GASNATURAL"), ("n", "1"), ("fs", "PEN"), ("k", "sym"), ("a", "sym"), ("lm", lm)]));
     }
     v.push(unit(&[("shape", shapes[0]), ("n", "2"), ("fs", "PEN"), ("k", "sym"), ("a", "sym"), ("lm", "1")]));
+    for s in catalogue(seed ^ 0xC04, if tier == "thorough" { 12 } else { 3 }, &[]).iter() {
+        v.push(unit(&[("shape", s), ("n", "1"), ("fs", "PEN"), ("k", "sym"), ("a", "sym"), ("bud", "90")]));
+    }
     // fractions of a Wh
     v.push(unit(&[("shape", shapes[2]), ("n", "1"), ("fs", "PEN"), ("k", "sym"), ("a", "sym"), ("dom", "0.00001:0.01")]));
     if tier == "thorough" {
